@@ -21,7 +21,9 @@ import (
 	"verifharness/props/conc"
 )
 
-func init() { proc.Register("c02-worker", func(a []string) int { conc.Setup(11, 20); return par.Serve(a, round) }) }
+func init() {
+	proc.Register("c02-worker", func(a []string) int { conc.Setup(11, 20); return par.Serve(a, round) })
+}
 
 // Step is one recorded step of a transaction.
 type Step struct {
@@ -34,14 +36,14 @@ type Step struct {
 
 // T is one transaction of the history.
 type T struct {
-	ID       string `json:"id"`
-	Mode     string `json:"mode"` // W | R
-	Steps    []Step `json:"steps"`
-	Call     int64  `json:"call"`
-	Ret      int64  `json:"ret"`
-	Err      string `json:"err,omitempty"`
-	Aborted  bool   `json:"aborted,omitempty"`
-	OpErr    string `json:"op_err,omitempty"`
+	ID      string `json:"id"`
+	Mode    string `json:"mode"` // W | R
+	Steps   []Step `json:"steps"`
+	Call    int64  `json:"call"`
+	Ret     int64  `json:"ret"`
+	Err     string `json:"err,omitempty"`
+	Aborted bool   `json:"aborted,omitempty"`
+	OpErr   string `json:"op_err,omitempty"`
 }
 
 type RoundRes struct {
